@@ -23,6 +23,9 @@ type TieSetup struct {
 //     snapshot, the largest group being the top stake and the total above the 4 500×144 PEG cap);
 //   - identical PEG requests in the bank era whose total exceeds the bank, before and after the V4 switch;
 //   - entry blocks with more than a hundred entries.
+// TieDivisor scales the tie groups' holdings down (1 = the default 200 000 / 1 000 pUSD per holder).
+var TieDivisor uint64 = 1
+
 func AddTies(m *Mixed, seed int64) *TieSetup {
 	e := m.W.Eras
 	ts := &TieSetup{Whale: forge.NewKey(fmt.Sprintf("whale-%d", seed))}
@@ -55,8 +58,8 @@ func AddTies(m *Mixed, seed int64) *TieSetup {
 		var outs []forge.Out
 		var total uint64
 		for _, k := range gA {
-			outs = append(outs, forge.Out{Addr: k.FA(), Amount: 200_000 * 1e8})
-			total += 200_000 * 1e8
+			outs = append(outs, forge.Out{Addr: k.FA(), Amount: 200_000 * 1e8 / TieDivisor})
+			total += 200_000 * 1e8 / TieDivisor
 		}
 		for _, k := range gB {
 			outs = append(outs, forge.Out{Addr: k.FA(), Amount: 1_000 * 1e8})
